@@ -139,7 +139,7 @@ def run(spec, out):
         case = G.generate(rng, nprng, family=rng.choice(fams), P={"maxlen": spec["maxlen"]})
         fn = getattr(einx, case.op)
         base_desc = case.desc()
-        edits = ["dim", "drop-root-axis", "dup-root-axis", "remove-kw", "contradict-kw", "remove-tensor", "add-tensor", "insert-token", "kw-type"]
+        edits = ["dim", "drop-root-axis", "dup-root-axis", "remove-kw", "contradict-kw", "remove-tensor", "add-tensor", "insert-token", "kw-type", "bracket-one-occurrence", "bracket-axis-everywhere"]
         for edit in rng.sample(edits, 4):
             inputs = [copy_expr(e) for e in case.inputs]
             outputs = None if case.outputs is None else [copy_expr(e) for e in case.outputs]
@@ -196,6 +196,41 @@ def run(spec, out):
                 desc = d0[:pos] + tok + d0[pos:]
                 if not balanced(desc) or desc.count("->") > 1:
                     proof = "syntax"
+            elif edit in ("bracket-one-occurrence", "bracket-axis-everywhere"):
+                allexprs = inputs + (outputs or [])
+                occ = []  # (expr index, parent list, position, name) of un-bracketed plain axes at any depth outside ellipses
+
+                def scan(items, ei, in_br):
+                    for pos_, n_ in enumerate(items):
+                        if isinstance(n_, Ax) and not in_br:
+                            occ.append((ei, items, pos_, n_.name))
+                        elif isinstance(n_, Br):
+                            scan(n_.items, ei, True)
+                        elif isinstance(n_, Flat):
+                            scan(n_.items, ei, in_br)
+
+                for ei, e_ in enumerate(allexprs):
+                    scan(e_, ei, False)
+                if not occ:
+                    continue
+                if edit == "bracket-one-occurrence":
+                    names_multi = [nm for nm in {o[3] for o in occ} if sum(1 for o in occ if o[3] == nm) >= 2]
+                    if not names_multi:
+                        continue
+                    nm = rng.choice(sorted(names_multi))
+                    ei, items_, pos_, _ = rng.choice([o for o in occ if o[3] == nm])
+                    items_[pos_] = Br([Ax(nm)])
+                    proof = "syntax:inconsistent-brackets"
+                else:
+                    # prefer names that occur only in outputs after the first one (broadcast axes), else any name
+                    nin = len(inputs)
+                    late = sorted({o[3] for o in occ if o[0] > nin} - {o[3] for o in occ if o[0] <= nin})
+                    nm = rng.choice(late) if late and rng.random() < 0.7 else rng.choice(sorted({o[3] for o in occ}))
+                    for ei, items_, pos_, name_ in occ:
+                        if name_ == nm:
+                            items_[pos_] = Br([Ax(nm)])
+                    if case.family in ("id", "elementwise"):
+                        proof = "rule:no-brackets-in-this-operation"
             elif edit == "kw-type":
                 if not kw:
                     continue
